@@ -32,7 +32,7 @@ manifest = {
         "guard": "UPIPE_VERIF",
         "enable": "checks compile /repo sources through goto-cc / clang / gcc with -DUPIPE_VERIF; no build-system change",
         "baseline_off_cmd": "make -C /repo -j8 check",
-        "source_commits": [],
+        "source_commits": ["7bad5b2"],
         "add_only": True,
     },
     "engines": [
